@@ -102,6 +102,28 @@ def run(chk):
         if r2 != ("ok", want):
             chk.violation(f"C16|{fn}|stale-after-in-place-edit", f"{fn} on a Series edited in place after an earlier call = {r2}, set algebra gives {want}",
                           {"fn": fn, "first_call": str(r1)})
+    # ---- any hashable elements: paired clonotypes as tuples, integers beside digit strings (1 and "1" are different elements)
+    for _ in range(30 if not thorough else 300):
+        kind = rng.choice(["tuples", "int-and-str", "ints"])
+        if kind == "tuples":
+            uni = [(a_, b_) for a_ in ("CA", "CB", "CC") for b_ in ("CX", "CY")]
+        elif kind == "int-and-str":
+            uni = [1, "1", 2, "2", 3, "a"]
+        else:
+            uni = [1, 2, 3, 10, 11]
+        A = [rng.choice(uni) for _ in range(rng.randint(1, 7))]
+        B = [rng.choice(uni) for _ in range(rng.randint(1, 7))]
+        sa, sb = set(A), set(B)
+        for cname, ca, cb in (("list", A, B), ("set", set(A), set(B)), ("tuple", tuple(A), tuple(B))) + ((("series", pd.Series(A, dtype=object), pd.Series(B, dtype=object)),) if kind != "tuples" or True else ()):
+            for fn in ("jaccard_index", "overlap", "overlap_coefficient"):
+                want = {"jaccard_index": len(sa & sb) / len(sa | sb), "overlap": len(sa & sb), "overlap_coefficient": len(sa & sb) / min(len(sa), len(sb))}[fn]
+                r_ = core.call_real(lambda: getattr(st, fn)(ca, cb))
+                chk.case(nontrivial_key=("hashable", kind, cname, fn, str(A), str(B)) if sa & sb else None)
+                chk.count(f"{fn}[{kind}]")
+                if r_ != ("ok", want):
+                    chk.violation(f"C16|{fn}|{kind}-{cname}|" + (f"raises-{r_[1]}" if r_[0] == "error" else "differs"),
+                                  f"{fn} on {kind} elements ({cname}) = {str(r_)[:80]} but set algebra on the elements gives {want}",
+                                  {"fn": fn, "A": [repr(x) for x in A], "B": [repr(x) for x in B], "container": cname})
     # ---- overlap measures
     ops, checks = [], []
     universe = ["a", "b", "c", "dd", "", "E", "f g"]
